@@ -146,5 +146,6 @@ int  sk_revents(int p, int fd, int events);
 #define FS_EXEC 2
 #define FS_DIR 4
 #define FS_NOACCESS 8
+#define FS_SUFFIX 16
 
 #endif
